@@ -205,6 +205,15 @@ theorem runLoop_eq_frun (b as : List K) (a0 : K) (gain : Gain K)
     rw [← hm, ← hd] at this
     exact this
 
+end ALV.C04
+
+/-! ## Dictionary / normalisation lemmas: no algebraic law is used, so they are stated for any
+coefficient type with a zero and decidable equality (C06 instantiates them at `Coef K`, whose
+Stream coefficients form no field). -/
+namespace ALV.C04
+section generic
+variable {K : Type} [OfNat K 0] [DecidableEq K]
+
 /-! ### dense coefficient lists -/
 
 theorem coefAt_nil (k : Int) : coefAt ([] : Terms K) k = 0 := rfl
@@ -271,6 +280,12 @@ theorem coefAt_shiftKeys (p : Int) (t : Terms K) (k : Int) :
       simp [h, h']
   simp only [coefAt, shiftKeys, List.find?_map, hp]
   cases t.find? (fun kv => kv.1 == k + p) <;> rfl
+
+end generic
+end ALV.C04
+
+namespace ALV.C04
+variable {K : Type} [Field K] [DecidableEq K]
 
 /-! ### all coefficients zero -/
 
